@@ -24,7 +24,8 @@ MISS = {
     'arith': ('TypeError', 'ZeroDivisionError'),
     # union over the default 'get' handlers: operator.getitem (KeyError, IndexError,
     # TypeError), _get_sequence_item (int(): ValueError/TypeError, IndexError), getattr
-    'get-handler': ('KeyError', 'IndexError', 'AttributeError', 'TypeError', 'ValueError'),
+    # ... and, the handler being whatever was registered for the type, any other Exception
+    'get-handler': ('KeyError', 'IndexError', 'AttributeError', 'TypeError', 'ValueError', 'Exception'),
     'delete-handler': ('KeyError', 'IndexError', 'AttributeError', 'TypeError', 'ValueError'),
     'assign-handler': ('KeyError', 'IndexError', 'AttributeError', 'TypeError', 'ValueError'),
 }
